@@ -4,6 +4,7 @@ CONSTANTS
   MaxObjs = 4
   MinObjs = 1
   MaxKids = 2
+  ExplicitNames = {"a"}
   ListPolicies = {"iter", "rev"}
   SeqPolicies = {"call", "direct"}
   SubPolicy = TRUE
